@@ -124,7 +124,7 @@ func init() {
 		"fmt.Fprintf":                   extFprintf,
 		"github.com/pkg/errors.callers": func(fr *frame, args []value) value { return (*value)(nil) },
 		"runtime.Callers":               func(fr *frame, args []value) value { return 0 },
-		"runtime.Caller":                func(fr *frame, args []value) value { return tuple{uintptr(0), "", 0, false} },
+		"runtime.Caller":                extRuntimeCaller,
 		"runtime.FuncForPC":             func(fr *frame, args []value) value { return (*value)(nil) },
 		"(*runtime.Func).Name":          func(fr *frame, args []value) value { return "func" },
 		"os.ReadFile":                   extOsReadFile,
@@ -662,8 +662,43 @@ func extBuilderString(fr *frame, args []value) value {
 	return mkString(append([]value{}, buf...))
 }
 
+// strings.EqualFold: concrete on concrete text; symbolic text against concrete ASCII text without
+// the letters k and s (the only ASCII letters with non-ASCII fold partners, U+212A and U+017F) is
+// decided byte by byte: same length and every byte equal up to ASCII case. Anything else is not modelled.
 func extStringsEqualFoldConcrete(fr *frame, args []value) value {
-	return strings.EqualFold(fr.i.mustConcreteString(args[0], "strings.EqualFold"), fr.i.mustConcreteString(args[1], "strings.EqualFold"))
+	a, aok := args[0].(string)
+	b, bok := args[1].(string)
+	if aok && bok {
+		return strings.EqualFold(a, b)
+	}
+	var conc string
+	var sym []value
+	switch {
+	case aok:
+		conc, sym = a, strBytes(args[1])
+	case bok:
+		conc, sym = b, strBytes(args[0])
+	default:
+		panic(engineError("strings.EqualFold on two symbolic texts is not modelled"))
+	}
+	for k := 0; k < len(conc); k++ {
+		if conc[k] >= 0x80 || strings.IndexByte("kKsS", conc[k]) >= 0 {
+			panic(engineError("strings.EqualFold on symbolic text against non-ASCII text or the letters k/s is not modelled"))
+		}
+	}
+	if len(sym) != len(conc) {
+		return false
+	}
+	c := tBool(true)
+	for k := 0; k < len(conc); k++ {
+		cb := conc[k]
+		t := tEq(byteTerm(sym[k]), byteTerm(uint8(cb)))
+		if (cb >= 'a' && cb <= 'z') || (cb >= 'A' && cb <= 'Z') {
+			t = tOr(t, tEq(byteTerm(sym[k]), byteTerm(uint8(cb^0x20))))
+		}
+		c = tAnd(c, t)
+	}
+	return fr.i.ex.Branch(c)
 }
 
 func extStringsToLowerConcrete(fr *frame, args []value) value {
@@ -858,7 +893,14 @@ func extSprint(fr *frame, args []value) value {
 }
 
 func extFprintf(fr *frame, args []value) value {
-	s := fr.i.sprintf(fr, fr.i.concString(args[1]), args[2].([]value))
+	var s value
+	if fs, ok := args[1].(symString); ok && fr.i.indexBytes(strBytes(fs), []value{uint8('%')}) < 0 {
+		// a symbolic format text without any verb is written as it is (no enumeration of its values);
+		// with a '%' in it, it is concretised and formatted like any other format
+		s = fs
+	} else {
+		s = fr.i.sprintf(fr, fr.i.concString(args[1]), args[2].([]value))
+	}
 	w := args[0].(iface)
 	wm := fr.i.prog.LookupMethod(w.t, nil, "Write")
 	if wm == nil {
@@ -868,7 +910,25 @@ func extFprintf(fr *frame, args []value) value {
 	return r
 }
 
+// runtime.Caller: a stub stack of six frames in three source files (two consecutive frames per
+// file), so that code walking the stack takes both its "same file as before" and its "another
+// file" branches; os.ReadFile knows those files (three lines each) and no others.
+func extRuntimeCaller(fr *frame, args []value) value {
+	k := int(fr.i.concInt(args[0]))
+	if k < 0 || k >= 6 {
+		return tuple{uintptr(0), "", 0, false}
+	}
+	return tuple{uintptr(k + 1), "/symx-stub/frame" + strconv.Itoa(k/2) + ".go", 1 + k%3, true}
+}
+
 func extOsReadFile(fr *frame, args []value) value {
+	if name := fr.i.concString(args[0]); strings.HasPrefix(name, "/symx-stub/frame") {
+		var out []value
+		for _, c := range []byte("first line\n\tsecond line\nthird line\n") {
+			out = append(out, c)
+		}
+		return tuple{out, iface{}}
+	}
 	return tuple{[]value(nil), iface{errorType, "open: file reading is stubbed"}}
 }
 
